@@ -123,6 +123,9 @@ func ruleJoinBeforeHandover(c *eng.Ctx) {
 }
 
 func runC02(c *eng.Ctx) {
+	c.Rule("R04.7", "K2")
+	ruleFreshCommitQueuePerTerm(c)
+
 	p := c.P
 	c.Rule("R02.1", "K3")
 	ruleJoinBeforeHandover(c)
